@@ -946,6 +946,9 @@ class HostConnectionPool(object):
         remaining_callbacks = set(self._connections)
         errors = []
 
+        # (also when there is no connection right now: the ones opened later look at it)
+        self._keyspace = keyspace
+
         if not remaining_callbacks:
             callback(self, errors)
             return
@@ -959,7 +962,6 @@ class HostConnectionPool(object):
             if not remaining_callbacks:
                 callback(self, errors)
 
-        self._keyspace = keyspace
         for conn in self._connections:
             conn.set_keyspace_async(keyspace, connection_finished_setting_keyspace)
 
